@@ -43,6 +43,10 @@ func (constReader) Read(p []byte) (int, error) {
 var (
 	initOnce sync.Once
 	logDir   string
+	// dposState is the one (empty) DPoS state of the process: every dstate.NewState subscribes to
+	// the global event bus for good, so fixtures share this one; the CR transaction checks only
+	// read it (producer key conflicts, active producers for vote outputs).
+	dposState *dstate.State
 )
 
 // Init prepares the process: transaction factory functions, quiet repository logger,
@@ -64,6 +68,7 @@ func Init() string {
 			evid.Fatalf("crkit: arbiters: %v", err)
 		}
 		blockchain.DefaultLedger = &blockchain.Ledger{Arbitrators: arbiters}
+		dposState = arbiters.State
 	})
 	return logDir
 }
@@ -156,7 +161,7 @@ func Params() *config.Configuration {
 	c.CRCProposalDraftDataStartHeight = far
 	c.CRClaimDPOSNodeStartHeight = far
 	c.CRClaimDPOSNodePeriod = far
-	c.CRAssetsRectifyTransactionHeight = far
+	c.CRAssetsRectifyTransactionHeight = 0 // also gates CRCProposalRealWithdraw
 	c.ChangeCommitteeNewCRHeight = far
 	c.MaxProposalTrackingCount = 128
 	c.SecretaryGeneral = common.BytesToHexString(K("sg").Pub)
